@@ -41,6 +41,43 @@
 #define VP_COVER(x) __CPROVER_assert(!(x), "VP_CANARY " #x)
 #endif
 
+/* a standard container that lives in raw storage (environment objects are never constructed): the array-backed stubs
+ * are initialised by clearing their fill count, the real libstdc++ container of the native twin by placement new */
+#ifdef __cplusplus
+#ifdef VP_NATIVE
+#include <new>
+template<class C> static inline void vp_init_container(C& c) { new ((void*)&c) C(); }
+#define VP_INIT_CONTAINER(c) vp_init_container(c)
+#else
+#define VP_INIT_CONTAINER(c) ((c).clear())   /* list, set, map stubs: clear() only resets the fill state */
+#endif
+#endif
+
+/* an environment object the code under contract may `delete`: raw, never constructed; natively it comes from operator
+ * new (ASan pairs allocation and deallocation functions) and is zero-filled */
+#ifdef __cplusplus
+#ifdef VP_NATIVE
+#include <string.h>
+#define VP_RAW_NEW(T) ((T*)memset(::operator new(sizeof(T)), 0, sizeof(T)))
+#else
+#define VP_RAW_NEW(T) ((T*)malloc(sizeof(T)))
+#endif
+#endif
+
+/* byte vectors (ByteString::byteString) in environment code: the stub keeps a symbolic length next to an inline array,
+ * the native twin's real vector is resized (lengths beyond 4096 are clamped natively: stated imprecision of the twin) */
+#ifdef __cplusplus
+#ifdef VP_NATIVE
+#define VP_BV_SET_LEN(v, len) ((v).resize((size_t)(len) < 4096 ? (size_t)(len) : 4096))
+#define VP_BV_AT(v, i) ((v)[i])
+#define VP_BV_ROOM(v, i) ((size_t)(i) < (v).size())
+#else
+#define VP_BV_SET_LEN(v, len) ((v).n = (len))
+#define VP_BV_AT(v, i) ((v).d[i])
+#define VP_BV_ROOM(v, i) (1)
+#endif
+#endif
+
 /* PKCS#11 types and the CK* constants of the standard come from the (mirrored) standard header */
 #include "cryptoki.h"
 #ifndef __cplusplus
